@@ -6,10 +6,11 @@ package main
 // check them against Paginate.tla given the full item list of the same state (post).
 
 import (
-	"strings"
 	"bytes"
 	"encoding/binary"
+	"fmt"
 	"sort"
+	"strings"
 
 	sdk "github.com/cosmos/cosmos-sdk/types"
 	"github.com/cosmos/cosmos-sdk/types/query"
@@ -39,7 +40,15 @@ func pagingLoop(fn pageFn, mode string, limit int, nextName func([]byte) interfa
 			pr.Offset = off
 			pr.CountTotal = it == 0
 		}
-		its, keys, nk, tot, err := fn(pr)
+		// a panicking list query is an observation (reported as a failed query), not a harness error
+		its, keys, nk, tot, err := func() (a []interface{}, b []interface{}, c []byte, d uint64, e error) {
+			defer func() {
+				if r := recover(); r != nil {
+					e = fmt.Errorf("list query panicked: %v", r)
+				}
+			}()
+			return fn(pr)
+		}()
 		if err != nil {
 			okAll = false
 			break
@@ -124,15 +133,15 @@ func (w *World) ListQueries(full bool) []interface{} {
 	nPo := len(ek.GetAllPurchaseOrders(ctx))
 	statuses := map[string]enttypes.PurchaseOrderStatus{"": enttypes.StatusNil, "raised": enttypes.StatusRaised, "accepted": enttypes.StatusAccepted,
 		"rejected": enttypes.StatusRejected, "completed": enttypes.StatusCompleted}
-	purs := append([]string{""}, w.Names...)
+	purs := append(append([]string{""}, w.Names...), "grp")
 	for _, st := range sortedKeys(statuses) {
 		for _, pu := range purs {
-			if st != "" && pu != "" && !(pu == w.Names[0] || pu == w.Names[len(w.Names)-1] || pu == "A3") {
+			if st != "" && pu != "" && !(pu == w.Names[0] || pu == w.Names[len(w.Names)-1] || pu == "A3" || pu == "grp") {
 				continue // pairs: a few purchasers only
 			}
 			paddr := ""
 			if pu != "" {
-				paddr = w.Accts[pu].Addr.String()
+				paddr = w.partyAddr(pu).String()
 			}
 			for _, mode := range modes {
 				for _, lim := range limitsFor(nPo, full) {
@@ -169,15 +178,15 @@ func (w *World) ListQueries(full bool) []interface{} {
 	for _, c := range wcs {
 		monW[c.Moniker] = true
 	}
-	owners := append([]string{""}, w.Names...)
+	owners := append(append([]string{""}, w.Names...), "grp")
 	for _, mo := range sortedKeys(monW) {
 		for _, ow := range owners {
-			if mo != "" && ow != "" && ow != "A1" && ow != "A3" {
+			if mo != "" && ow != "" && ow != "A1" && ow != "A3" && ow != "grp" {
 				continue
 			}
 			oaddr := ""
 			if ow != "" {
-				oaddr = w.Accts[ow].Addr.String()
+				oaddr = w.partyAddr(ow).String()
 			}
 			for _, mode := range modes {
 				for _, lim := range limitsFor(len(wcs), full) {
@@ -207,12 +216,12 @@ func (w *World) ListQueries(full bool) []interface{} {
 	}
 	for _, mo := range sortedKeys(monB) {
 		for _, ow := range owners {
-			if mo != "" && ow != "" && ow != "A1" && ow != "A3" {
+			if mo != "" && ow != "" && ow != "A1" && ow != "A3" && ow != "grp" {
 				continue
 			}
 			oaddr := ""
 			if ow != "" {
-				oaddr = w.Accts[ow].Addr.String()
+				oaddr = w.partyAddr(ow).String()
 			}
 			for _, mode := range modes {
 				for _, lim := range limitsFor(len(bcs), full) {
@@ -270,8 +279,8 @@ func (w *World) ListQueries(full bool) []interface{} {
 			add("str", J{"sender": "", "receiver": ""}, mode, lim, pagingLoop(fn, mode, lim, present, nStr+3))
 		}
 	}
-	for _, who := range w.Names {
-		addr := w.Accts[who].Addr.String()
+	for _, who := range append(append([]string{}, w.Names...), "grp") {
+		addr := w.partyAddr(who).String()
 		for _, mode := range modes {
 			for _, lim := range limitsFor(nStr, full) {
 				fnS := func(pr *query.PageRequest) ([]interface{}, []interface{}, []byte, uint64, error) {
@@ -318,6 +327,8 @@ func (w *World) addrOfName(n string) (sdk.AccAddress, bool) {
 	switch n {
 	case "gov":
 		return w.GovAddr, true
+	case "grp":
+		return w.GrpAddr, true
 	case "feecol":
 		return w.FeeAddr, true
 	case "ent":
